@@ -293,9 +293,13 @@ def io_knobs(rng):
     }
 
 
-def sched_spec(rng, heavy):
+def sched_spec(rng, heavy, no_all=False):
     r = rng.random()
     scope = "engine" if r < 0.45 else ("nokw" if r < 0.7 else "all")
+    if scope == "all" and no_all:
+        # tracing every keyword comparison of a large buffer (or doing so repeatedly in one world) costs
+        # minutes and explores nothing the first such run did not
+        scope = "nokw"
     kind = rng.choice(["rw", "rw", "sw", "sw", "sw", "pct", "rtc"])
     if scope == "all" and rng.random() < 0.6:
         kind = "sw"  # the only policy that reaches rare lines between the keyword loops
@@ -487,7 +491,9 @@ def gen_c09(seed, shipped, tier="quick"):
                 for j in jobs:
                     if rng.random() < 0.25:
                         j.append("node")  # this thread enters through scan_node() on a node it built
-                ops.append(["par_scan", s, jobs, sched_spec(rng, use_shipped)])
+                bulky = any(len(corpus[j[0]]) > 3000 for j in jobs)
+                n_all = sum(1 for o in ops if o[0] == "par_scan" and o[3].get("scope") == "all")
+                ops.append(["par_scan", s, jobs, sched_spec(rng, use_shipped, no_all=(use_shipped and (bulky or n_all >= 1)) or n_all >= 2)])
                 nres += nt
             elif r < 0.72 and nres:
                 ops.append(["view", rng.randrange(64)])
